@@ -261,6 +261,8 @@ type SignerOpts struct {
 	Permissions map[string][]*checker.Permissions
 	AdminIPs    []string
 	AcctPasses  []string
+	// GenPass (optional) is the instance's own generation passphrase (default "pass").
+	GenPass string
 	Wrap        Wrap
 	// Full also builds lister, account manager, wallet manager and a single-instance process service.
 	Full bool
@@ -457,6 +459,10 @@ func (r *SignerRig) openRules() error {
 	if r.opts.Sender != nil {
 		snd = r.opts.Sender
 	}
+	genPass := "pass"
+	if r.opts.GenPass != "" {
+		genPass = r.opts.GenPass
+	}
 	timeout := r.opts.GenTimeout
 	if timeout == 0 {
 		timeout = time.Hour
@@ -470,7 +476,7 @@ func (r *SignerRig) openRules() error {
 		standardprocess.WithPeers(r.Peers),
 		standardprocess.WithID(pid),
 		standardprocess.WithStores([]e2wtypes.Store{r.WStore}),
-		standardprocess.WithGenerationPassphrase([]byte("pass")),
+		standardprocess.WithGenerationPassphrase([]byte(genPass)),
 		standardprocess.WithGenerationTimeout(timeout))
 	if err != nil {
 		return err
